@@ -215,7 +215,15 @@ def search(res, tier, boost=False):
     tg, wtg = graded_both(8, 8, 0.25)
     xg, wxg = graded_both(8, 3, 0.2)   # evaluate() requires in-element points > 1e-5 away from the end points
     worst = 0.0
-    for problem, domain, unif in combos:
+    rng = seed_rng(res.seed, 'C03s')
+    # locally refined meshes: elements whose time interval is nested in / overlaps others (kinks inside elements)
+    combos = [(p, d, u, None) for (p, d, u) in combos]
+    local = [('Dirichlet', 'UnitSquare'), ('MildSingular', 'UnitSquare'), ('Dirichlet', 'Circle')]
+    if tier == 'thorough' or boost:
+        local += [('Singular', 'UnitSquare'), ('MildSingular', 'LShape'), ('Dirichlet', 'PiSquare')]
+    for (p, d) in local:
+        combos.append((p, d, 0, [rng.choice(['t', 't', 's']) for _ in range(rng.randint(2, 4))]))
+    for problem, domain, unif, local_ops in combos:
         gamma = make_curve(domain)
         with contextlib.redirect_stdout(io.StringIO()):
             mesh = MeshParametrized(gamma)
@@ -225,9 +233,15 @@ def search(res, tier, boost=False):
                         mesh.refine_space(e)
             for _ in range(unif):
                 mesh.uniform_refine()
+            for ax in (local_ops or []):
+                cand = [e for e in mesh.leaf_elements if float(e.h_x)**2 / float(e.h_t) <= (8 if ax == 't' else 64)]
+                e = rng.choice(cand or list(mesh.leaf_elements))
+                mesh.refine_axis(e, 0 if ax == 't' else 1)
         data = problem_helper(problem, domain)
         init = {'UnitSquare': UnitSquareBoundaryRefined, 'PiSquare': PiSquareBoundaryRefined, 'LShape': LShapeBoundaryRefined}.get(domain)
         elems = list(mesh.leaf_elements)
+        tlevels = sorted({float(t) for e in elems for t in e.time_interval})
+        xlevels = sorted({float(x) for e in elems for x in e.space_interval})
         for pw in ((False, True) if domain != 'Circle' else (False, )):
             with contextlib.redirect_stdout(io.StringIO()):
                 SL = SingleLayerOperator(mesh, pw_exact=pw)
@@ -248,15 +262,22 @@ def search(res, tier, boost=False):
             for i, e in enumerate(elems):
                 ta, tb = map(float, e.time_interval)
                 xa, xb = map(float, e.space_interval)
-                T, X = np.meshgrid(ta + (tb - ta) * tg, xa + (xb - xa) * xg, indexing='ij')
-                W = np.outer(wtg, wxg).ravel() * (tb - ta) * (xb - xa)
+                # composite rule with breaks at every mesh level inside the element (the residual has kinks there)
+                tbk = [ta] + [t for t in tlevels if ta < t < tb] + [tb]
+                xbk = [xa] + [x for x in xlevels if xa < x < xb] + [xb]
+                Tn = np.concatenate([a + (b - a) * tg for a, b in zip(tbk[:-1], tbk[1:])])
+                Wt = np.concatenate([(b - a) * wtg for a, b in zip(tbk[:-1], tbk[1:])])
+                Xn = np.concatenate([a + (b - a) * xg for a, b in zip(xbk[:-1], xbk[1:])])
+                Wx = np.concatenate([(b - a) * wxg for a, b in zip(xbk[:-1], xbk[1:])])
+                T, X = np.meshgrid(Tn, Xn, indexing='ij')
+                W = np.outer(Wt, Wx).ravel()
                 r = residual(T.ravel(), X.ravel(), e.gamma_space)
                 mean, l1 = float(np.dot(W, r)), float(np.dot(W, np.abs(r)))
                 ratio = abs(mean) / (l1 + 1e-300)
                 worst = max(worst, ratio if l1 > 1e-9 else 0.0)
-                res.count(('real', problem, domain, unif, pw, i), l1 > 1e-12)
+                res.count(('real', problem, domain, unif, str(local_ops), pw, i), l1 > 1e-12)
                 if abs(mean) > 5e-5 * l1 + 1e-12:
                     res.violation('C03:residual-mean-nonzero:%s:%s' % (problem, domain),
-                                  dict(problem=problem, domain=domain, uniform_refinements=unif, pw_exact=pw, element=i,
-                                       mean=mean, int_abs=l1))
+                                  dict(problem=problem, domain=domain, uniform_refinements=unif, local_refinements=local_ops,
+                                       pw_exact=pw, element=i, elem=dict(t=[ta, tb], x=[xa, xb]), mean=mean, int_abs=l1))
     res.notes['worst_mean_over_l1'] = worst
